@@ -119,21 +119,15 @@ impl QFiles {
     }
 }
 
-/// Builds a file for a read-side check. These properties quantify over *valid files*: a file the
-/// writer cannot produce, or that the independent decoder does not accept as conforming and
-/// holding the inserted entries, is a C01/C09 matter — it is counted as a failed prerequisite and
-/// skipped, never reported as a violation of the calling property.
+/// Builds a file for a read-side check. The files these properties quantify over are the files
+/// the real writer produces ("all files as in C01"): if the writer produces a file on which the
+/// reader misbehaves, the property is broken for grenad as a whole and the query oracle reports
+/// it. Only when the writer produces no file at all (error or panic) is there nothing to query:
+/// that is counted as a failed prerequisite (C01's business), not as a violation.
 pub fn build_or_report(prop: &str, spec: &FileSpec, acc: &mut Acc) -> Option<(Model, Vec<u8>, usize)> {
     let _ = prop;
     match build_file(spec) {
         Ok((entries, bytes)) => {
-            match vlib::fmt::decode_file(&bytes, Some(spec.cfg.effective_interval())) {
-                Ok(l) if l.entries == entries => {}
-                _ => {
-                    acc.count("prerequisite_failed_file_not_valid_(C01/C09)", 1);
-                    return None;
-                }
-            }
             let blocks = count_blocks(&bytes);
             Some((Model::new(entries), bytes, blocks))
         }
